@@ -583,3 +583,91 @@ pub proof fn lemma_byte_fits(b: u8, w: nat)
         assert(v >> 8 == 0) by(bit_vector) requires v == b as u64;
     }
 }
+
+pub proof fn lemma_shl_pow2(k: u64)
+    requires k <= 62
+    ensures (1i64 << k) == pow2(k as nat), 1 <= (1i64 << k) <= 0x4000_0000_0000_0000
+    decreases k
+{
+    if k == 0 {
+        assert((1i64 << 0u64) == 1) by(bit_vector);
+    } else {
+        lemma_shl_pow2((k - 1) as u64);
+        let a = 1i64 << k;
+        let b = 1i64 << ((k - 1) as u64);
+        assert(a == 2 * b && 1 <= a <= 0x4000_0000_0000_0000) by(bit_vector) requires 1 <= k <= 62, a == 1i64 << k, b == 1i64 << ((k - 1) as u64);
+    }
+}
+
+pub proof fn lemma_width_pow2(u: u64, w: nat)
+    ensures width(u) <= w <==> u < pow2(w)
+    decreases u
+{
+    lemma_pow2_pos(w);
+    if u != 0 && w != 0 {
+        lemma_width_pow2((u / 2) as u64, (w - 1) as nat);
+    }
+}
+
+/// the magnitude pattern whose leading zeros the code counts: v for v >= 0, !v (== -v - 1) for v < 0
+pub open spec fn mag_2c(v: i64) -> u64 { if v < 0 { !(v as u64) } else { v as u64 } }
+
+pub proof fn lemma_mag_2c(v: i64)
+    ensures mag_2c(v) == (if v < 0 { -v - 1 } else { v as int }), mag_2c(v) < 0x8000_0000_0000_0000
+{
+    if v < 0 {
+        let x = v as u64;
+        let m: i64 = (-(v + 1)) as i64;
+        assert(!x == m as u64) by(bit_vector) requires x == v as u64, m == -(v + 1), v < 0;
+    }
+}
+
+pub proof fn lemma_fits_2c_mag(v: i64, bit_len: nat)
+    requires 1 <= bit_len <= 64
+    ensures fits_2c(v, bit_len) <==> (bit_len == 64 || width(mag_2c(v)) <= bit_len - 1)
+{
+    lemma_mag_2c(v);
+    lemma_width_pow2(mag_2c(v), (bit_len - 1) as nat);
+    lemma_pow2_values();
+    if bit_len == 64 { lemma_width_pow2(mag_2c(v), 63); }
+}
+
+/// 11.4.6 / 11.8: what the code computes from leading zeros / ones is the minimum number of octets
+pub proof fn lemma_min_octets_2c(v: i64)
+    ensures
+        vstd::std_specs::bits::u64_leading_zeros(mag_2c(v)) >= 1,
+        min_octets_2c(v) == 8 - (vstd::std_specs::bits::u64_leading_zeros(mag_2c(v)) - 1) / 8,
+        1 <= min_octets_2c(v) <= 8,
+        fits_2c(v, 8 * min_octets_2c(v)),
+{
+    let u = mag_2c(v);
+    lemma_mag_2c(v);
+    lemma_width(u);
+    lemma_pow2_values();
+    lemma_width_pow2(u, 63);
+    lemma_fits_2c_mag(v, 8);
+    lemma_fits_2c_mag(v, 16);
+    lemma_fits_2c_mag(v, 24);
+    lemma_fits_2c_mag(v, 32);
+    lemma_fits_2c_mag(v, 40);
+    lemma_fits_2c_mag(v, 48);
+    lemma_fits_2c_mag(v, 56);
+    lemma_fits_2c_mag(v, 64);
+}
+
+/// the fragment size returned for a length >= 16K (kept out of the callers' queries: div/mul by 16384)
+pub proof fn lemma_announced(value: u64, multiple: u8)
+    requires value >= 16384, multiple as u64 == (if value / 16384 >= 4 { 4 } else { value / 16384 })
+    ensures
+        multiple as u64 == frag_blocks(value), 1 <= multiple <= 4,
+        (multiple as u64) * 16384 == len_announced(value),
+        16384 <= len_announced(value) <= 65536, len_announced(value) <= value,
+        x691_len_general(value).len() == 8,
+{
+    let fb = frag_blocks(value);
+    assert(fb == 1 || fb == 2 || fb == 3 || fb == 4);
+    if fb == 1 { assert(16384 * fb == 16384); }
+    else if fb == 2 { assert(16384 * fb == 32768); }
+    else if fb == 3 { assert(16384 * fb == 49152); }
+    else { assert(16384 * fb == 65536); }
+}
